@@ -466,7 +466,9 @@ class ExtMixin(object):
 
     def x_reversed(self, args, kwargs, node, env):
         v = args[0]
-        if isinstance(v, ListV):
+        if isinstance(v, NTV):
+            v = ListV(list(v.values), "tuple")      # a named tuple is a tuple
+        if isinstance(v, ListV) and not getattr(v, "tail", None):
             return ListV(list(reversed(v.items)), "list")
         self.err(node, "reversed(%r)" % (v,))
 
